@@ -418,8 +418,15 @@ func (t *thread) Step() (bool, error) {
 	// script, maximum script element sizes, and conditionals.
 	if err := t.executeOpcode(opcode); err != nil {
 		if ok := errs.IsErrorCode(err, errs.ErrOK); ok {
-			// If returned early, move onto the next script
+			// If returned early, move onto the next script. The alt stack
+			// doesn't persist and zero length scripts are skipped, exactly
+			// as when a script runs to its end.
+			_ = t.astack.DropN(t.astack.Depth())
 			t.shiftScript()
+			if t.scriptIdx < len(t.scripts) && len(t.scripts[t.scriptIdx]) == 0 {
+				t.scriptIdx++
+			}
+			t.lastCodeSep = 0
 			return t.scriptIdx >= len(t.scripts), nil
 		}
 		return true, err
